@@ -388,13 +388,18 @@ def task_sections(pr, repo):
 
     def thunk(ex, ctx):
         def mk(i, rt, chain):
-            g = record('g%d' % i, Gc, residue_type=rt, atom=record('a%d' % i, None, chain_id=chain))
+            g = record('g%d' % i, Gc, residue_type=rt, atom=record('a%d' % i, repo.cls('propka.atom.Atom'), chain_id=chain))
             g.attrs['get_determinant_string'] = Builtin('gds', lambda ex, *a, **k: (flags.append(('DET', a, k)), FmtStr([('fmt', 'DET', [i], {})]))[1])
             g.attrs['get_summary_string'] = Builtin('gss', lambda ex, *a, **k: (flags.append(('SUM', a, k)), FmtStr([('fmt', 'SUM', [i], {})]))[1])
             return g
         flags = []
         flag = B('remove_penalised_group')
         groups = [mk(0, 'LYS', 'A'), mk(1, 'ASP', 'B'), mk(2, 'ASP', 'A'), mk(3, 'N+', 'A'), mk(4, 'C-', 'B'), mk(5, 'XYZ', 'A')]
+        # groups 1 and 2... no: groups 0 and 6 print the SAME label (residues 97 and 97A): two groups, two rows in each table
+        groups.append(mk(6, 'LYS', 'A'))
+        for i_, g_ in enumerate(groups):
+            g_.attrs['label'] = 'LYS  97 A' if i_ in (0, 6) else 'GRP %d' % i_
+            g_.attrs['atom'].attrs.update(type='atom', res_num=97 if i_ in (0, 6) else i_)
         conf = record('conf', None, groups=groups, chains=['A', 'B'], non_covalently_coupled_groups=False)
         params = record('P', repo.cls('propka.parameters.Parameters'), write_out_order=order, remove_penalised_group=flag)
         mol = record('mol', None, conformations={'AVR': conf}, options=record('o', None, display_coupled_residues=False))
@@ -417,10 +422,10 @@ def task_sections(pr, repo):
                                 out.extend(flat(a))
             return out
         ctx.oblige('SE: determinant section and summary section each print every group whose type is in write_out_order exactly once, '
-                   'and no other group', sorted(flat(s1)) == [0, 1, 2, 3, 4] and sorted(flat(s2)) == [0, 1, 2, 3, 4])
+                   'and no other group', sorted(flat(s1)) == [0, 1, 2, 3, 4, 6] and sorted(flat(s2)) == [0, 1, 2, 3, 4, 6])
         passed = [(a[0] if a else k.get('remove_penalised_group')) for _, a, k in flags]
         ctx.oblige('SE: both sections hand the remove_penalised_group setting OF THE PARAMETER SET IN USE to every row (a group kept by '
-                   'the configuration is printed in both tables)', len(passed) == 10 and all(x is flag for x in passed))
+                   'the configuration is printed in both tables)', len(passed) == 12 and all(x is flag for x in passed))
     pr.explore(ex, thunk, 'sections')
 
 
